@@ -353,6 +353,59 @@ def mutable_defaults(chk, P):
                site=ofi.site(), found=bad or None, expect="read only", key="C12.O3|field|%s" % fname)
 
 
+def shared_state_findings(P):
+    """[(function, description)]: every place where a function mutates a default-argument object, a field that stores one,
+    or a module-level / class-level container (the raw material of C12.O2/O3, reusable per call path)"""
+    out = []
+    sites = []
+    for fi in P.all_functions():
+        a = fi.node.args
+        params = [x.arg for x in a.args]
+        for i, d in enumerate(a.defaults):
+            pname = params[len(params) - len(a.defaults) + i]
+            if isinstance(d, (ast.List, ast.Dict, ast.Set)) or \
+                    (isinstance(d, ast.Call) and isinstance(P.resolve_expr(fi.module, d.func), ClassInfo)):
+                sites.append((fi, pname, d))
+    fields = {}
+    for fi, pname, d in sites:
+        for node in _own_nodes(fi.node):
+            if isinstance(node, ast.Assign) and isinstance(node.value, ast.Name) and node.value.id == pname:
+                for t in node.targets:
+                    if isinstance(t, ast.Attribute):
+                        fields[t.attr] = (fi, pname)
+            if _mutates(node, lambda e: isinstance(e, ast.Name) and e.id == pname):
+                out.append((fi, "mutates its default argument %s=%s: %s" % (pname, ast.unparse(d), ast.unparse(node)[:50])))
+    for fname, (ofi, pname) in fields.items():
+        for fi in P.all_functions():
+            for node in _own_nodes(fi.node):
+                if _mutates(node, lambda e: isinstance(e, ast.Attribute) and e.attr == fname):
+                    out.append((fi, "mutates .%s, which holds the default object of %s(%s): %s" % (fname, ofi.qualname, pname, ast.unparse(node)[:50])))
+    for fi in P.all_functions():
+        for node in _own_nodes(fi.node):
+            if isinstance(node, ast.Global):
+                out.append((fi, "global statement: %s" % ", ".join(node.names)))
+            if isinstance(node, ast.Call) and isinstance(node.func, ast.Attribute) and node.func.attr in MUTATORS:
+                root = _root(node.func.value)
+                if isinstance(root, ast.Name) and _is_module_level(P, fi, root.id) and not _is_local(fi, root.id):
+                    outer = fi
+                    while outer.parent is not None:
+                        outer = outer.parent
+                    if not (outer.cls is None and _import_time_only(P, outer)):
+                        out.append((fi, "mutates module-level object %s" % ast.unparse(node.func.value)))
+    return out
+
+
+def path_state(chk, P, rule, inlined, what):
+    """no function on a check's own call path keeps state between calls (same input -> same output on every call)"""
+    mine = [(fi, d) for fi, d in shared_state_findings(P) if fi.fq in inlined]
+    for fi, d in mine:
+        chk.ob(rule, "%s %s" % (fi.qualname, d), False, site=fi.site(), found=d, expect="no state shared between calls",
+               key="%s|%s|%s" % (rule, fi.fq, d.split(":")[0][:60]))
+    chk.ob(rule, "%s: none of the %d functions on this path mutates a default-argument object, a field holding one, or a "
+                 "module-level container" % (what, len(inlined)), not mine and len(inlined) > 0, site="atsim", found=len(mine) or None, expect=0,
+           key="%s|%s|summary" % (rule, what))
+
+
 def _mutates(node, is_target):
     if isinstance(node, ast.Call) and isinstance(node.func, ast.Attribute) and node.func.attr in MUTATORS and is_target(node.func.value):
         return True
